@@ -690,4 +690,301 @@ Section W.
       + constructor.
       + reflexivity.
   Qed.
+
+  (* ---------------------------------------------------------------- queries *)
+  Lemma live_from_In (l : list (option node_data)) : forall i x,
+    In x (live_from l i) <-> exists k d, x = i + k /\ nth_error l k = Some (Some d).
+  Proof.
+    induction l as [|[d|] r IH]; intros i x; cbn [live_from].
+    - split; [intros []|]. intros (k & d & _ & H). destruct k; discriminate.
+    - cbn [In]. rewrite IH. split.
+      + intros [<-|(k & d' & -> & H)]; [exists 0, d; split; [lia|reflexivity]|exists (S k), d'; split; [lia|exact H]].
+      + intros ([|k] & d' & -> & H); [left; lia|right; exists k, d'; split; [lia|exact H]].
+    - rewrite IH. split.
+      + intros (k & d' & -> & H). exists (S k), d'. split; [lia|exact H].
+      + intros ([|k] & d' & -> & H); [discriminate|exists k, d'; split; [lia|exact H]].
+  Qed.
+  Lemma live_from_ge (l : list (option node_data)) i x : In x (live_from l i) -> i <= x.
+  Proof. intros H. apply live_from_In in H. destruct H as (k & _ & -> & _). lia. Qed.
+  Lemma live_from_NoDup (l : list (option node_data)) : forall i, NoDup (live_from l i).
+  Proof.
+    induction l as [|[d|] r IH]; intros i; cbn [live_from]; [constructor| |apply IH].
+    constructor; [|apply IH]. intros H. apply live_from_ge in H. lia.
+  Qed.
+  Fixpoint dead_from (l : list (option node_data)) (i : nat) : list nid :=
+    match l with [] => [] | Some _ :: r => dead_from r (S i) | None :: r => i :: dead_from r (S i) end.
+  Lemma dead_from_In (l : list (option node_data)) : forall i x,
+    In x (dead_from l i) <-> exists k, x = i + k /\ nth_error l k = Some None.
+  Proof.
+    induction l as [|[d|] r IH]; intros i x; cbn [dead_from].
+    - split; [intros []|]. intros (k & _ & H). destruct k; discriminate.
+    - rewrite IH. split.
+      + intros (k & -> & H). exists (S k). split; [lia|exact H].
+      + intros ([|k] & -> & H); [discriminate|exists k; split; [lia|exact H]].
+    - cbn [In]. rewrite IH. split.
+      + intros [<-|(k & -> & H)]; [exists 0; split; [lia|reflexivity]|exists (S k); split; [lia|exact H]].
+      + intros ([|k] & -> & H); [left; lia|right; exists k; split; [lia|exact H]].
+  Qed.
+  Lemma dead_from_NoDup (l : list (option node_data)) : forall i, NoDup (dead_from l i).
+  Proof.
+    induction l as [|[d|] r IH]; intros i; cbn [dead_from]; [constructor|apply IH|].
+    constructor; [|apply IH]. intros H. apply dead_from_In in H. destruct H as (k & E & _). lia.
+  Qed.
+  Lemma live_dead_length (l : list (option node_data)) : forall i,
+    length (live_from l i) + length (dead_from l i) = length l.
+  Proof. induction l as [|[d|] r IH]; intros i; cbn; [reflexivity| |]; specialize (IH (S i)); lia. Qed.
+
+  Lemma iter_nodes_In (h : hugr) n : In n (iter_nodes h) <-> get_node h n <> None.
+  Proof.
+    unfold iter_nodes. rewrite live_from_In. unfold get_node. split.
+    - intros (k & d & -> & H). cbn. now rewrite H.
+    - destruct (nth_error (nodes h) n) as [[d|]|] eqn:E; try congruence. intros _. exists n, d. split; [lia|exact E].
+  Qed.
+
+  Theorem iter_refines h g : Rep h g -> Permutation (iter_nodes h) (sq_nodes g).
+  Proof.
+    intros (HN & HND & _). apply NoDup_Permutation; [apply live_from_NoDup|exact HND|].
+    intros n. rewrite iter_nodes_In. unfold sq_nodes. rewrite <- (HN n) || idtac. split.
+    - intros H. specialize (HN n). destruct (get_node h n) as [d|]; [|congruence]. cbn in HN.
+      symmetry in HN. eapply (dget_In Nat.eqb Nat.eqb_spec). exact HN.
+    - intros H. apply aget_in in H. specialize (HN n). destruct (get_node h n); [discriminate|]. cbn in HN. congruence.
+  Qed.
+  Theorem len_refines h g : Inv h -> Rep h g -> num_nodes h = length (a_nodes g).
+  Proof.
+    intros (_ & (Hnd & Hfree) & _) HR. pose proof (iter_refines h g HR) as HP. apply Permutation_length in HP.
+    unfold sq_nodes in HP. rewrite map_length in HP. rewrite <- HP. unfold num_nodes, iter_nodes.
+    assert (Hd : Permutation (free h) (dead_from (nodes h) 0)).
+    { apply NoDup_Permutation; [assumption|apply dead_from_NoDup|]. intros n. rewrite Hfree, dead_from_In. unfold get_node. split.
+      - intros [Hl Hn]. exists n. split; [lia|]. destruct (nth_error (nodes h) n) as [[d|]|] eqn:E; try congruence.
+        apply nth_error_None in E. lia.
+      - intros (k & -> & H). cbn. rewrite H. split; [|reflexivity]. apply nth_error_Some. congruence. }
+    apply Permutation_length in Hd. rewrite Hd. pose proof (live_dead_length (nodes h) 0). lia.
+  Qed.
+
+  Theorem get_refines h g n : Rep h g -> option_map anode_of (get_node h n) = aget (a_nodes g) n.
+  Proof. intros (HN & _). apply HN. Qed.
+  Theorem links_refine h g : Rep h g -> Permutation (q_links h) (a_links g).
+  Proof. intros (_ & _ & HP & _). exact HP. Qed.
+  Theorem linked_out_refine h g p : Inv h -> Rep h g -> Permutation (linked_out h p) (sq_linked_out g p).
+  Proof. intros (HL & _) (_ & _ & HP & _). exact (linked_out_refines (links h) (a_links g) p HL HP). Qed.
+  Theorem linked_in_refine h g p : Inv h -> Rep h g -> Permutation (linked_in h p) (sq_linked_in g p).
+  Proof. intros (HL & _) (_ & _ & HP & _). exact (linked_in_refines (links h) (a_links g) p HL HP). Qed.
+  Theorem has_link_refine h g s t : Inv h -> Rep h g -> has_link h s t = s_has_link g s t.
+  Proof. intros (HL & _) (_ & _ & HP & _). exact (has_link_refines (links h) (a_links g) s t HL HP). Qed.
+  Theorem order_out_refine h g n : Inv h -> Rep h g ->
+    Permutation (outgoing_order_links h n) (map fst (sq_linked_out g (n, (-1)%Z))).
+  Proof. intros HI HR. apply Permutation_map. now apply linked_out_refine. Qed.
+  Theorem order_in_refine h g n : Inv h -> Rep h g ->
+    Permutation (incoming_order_links h n) (map fst (sq_linked_in g (n, (-1)%Z))).
+  Proof. intros HI HR. apply Permutation_map. now apply linked_in_refine. Qed.
+
+  (* outgoing_links / incoming_links: one entry per declared port, each the multiset the specification
+     gives; while the HUGR has no link at all the implementation yields nothing (not promised either way) *)
+  Theorem outgoing_refine h g n : Inv h -> Rep h g ->
+    match outgoing_links h n, sq_outgoing g n with
+    | Some L, Some L' =>
+        (fwd (links h) <> [] -> map fst L = map fst L') /\
+        forall p l, In (p, l) L -> exists l', In (p, l') L' /\ Permutation l l'
+    | None, None => True
+    | _, _ => False
+    end.
+  Proof.
+    intros HI HR. unfold outgoing_links, sq_outgoing. rewrite <- (get_refines h g n HR).
+    destruct (get_node h n) as [d|]; cbn [option_map]; [|exact I]. cbn [anode_of a_nout]. split.
+    - intros Hne. unfold node_links. destruct (fwd (links h)); [congruence|]. rewrite !map_map. reflexivity.
+    - intros p l Hin. unfold node_links in Hin. destruct (fwd (links h)) eqn:E; [destruct Hin|]. rewrite <- E in Hin.
+      apply in_map_iff in Hin. destruct Hin as (o & [= <- <-] & Ho). eexists. split.
+      + apply in_map_iff. exists o. split; [reflexivity|exact Ho].
+      + now apply linked_out_refine.
+  Qed.
+  Theorem incoming_refine h g n : Inv h -> Rep h g ->
+    match incoming_links h n, sq_incoming g n with
+    | Some L, Some L' =>
+        (bck (links h) <> [] -> map fst L = map fst L') /\
+        forall p l, In (p, l) L -> exists l', In (p, l') L' /\ Permutation l l'
+    | None, None => True
+    | _, _ => False
+    end.
+  Proof.
+    intros HI HR. unfold incoming_links, sq_incoming. rewrite <- (get_refines h g n HR).
+    destruct (get_node h n) as [d|]; cbn [option_map]; [|exact I]. cbn [anode_of a_nin]. split.
+    - intros Hne. unfold node_links. destruct (bck (links h)); [congruence|]. rewrite !map_map. reflexivity.
+    - intros p l Hin. unfold node_links in Hin. destruct (bck (links h)) eqn:E; [destruct Hin|]. rewrite <- E in Hin.
+      apply in_map_iff in Hin. destruct Hin as (o & [= <- <-] & Ho). eexists. split.
+      + apply in_map_iff. exists o. split; [reflexivity|exact Ho].
+      + now apply linked_in_refine.
+  Qed.
+
+  (* ---------------------------------------------------------------- corollaries of the property text *)
+  (* what a command of the specification may do to a node it does not delete *)
+  Definition kept (a a' : anode Op Meta) : Prop :=
+    a_op a' = a_op a /\ a_parent a' = a_parent a /\ a_meta a' = a_meta a /\
+    (a_nin a <= a_nin a')%Z /\ (a_nout a <= a_nout a')%Z.
+  Lemma kept_refl a : kept a a.
+  Proof. unfold kept. repeat split; lia. Qed.
+  Lemma kept_trans a b c : kept a b -> kept b c -> kept a c.
+  Proof. unfold kept. intros (A1 & A2 & A3 & A4 & A5) (B1 & B2 & B3 & B4 & B5). repeat split; try congruence; lia. Qed.
+  Lemma a_upd_kept (g : agraph) k f n a : (forall x, kept x (f x)) -> aget (a_nodes g) n = Some a ->
+    exists a', aget (a_nodes (a_upd g k f)) n = Some a' /\ kept a a'.
+  Proof.
+    intros Hf Ha. rewrite a_upd_get. destruct (Nat.eqb_spec n k) as [->|].
+    - rewrite Ha. cbn. eexists. split; [reflexivity|apply Hf].
+    - exists a. split; [assumption|apply kept_refl].
+  Qed.
+  Lemma s_add_link_kept (g : agraph) s t n a : aget (a_nodes g) n = Some a ->
+    exists a', aget (a_nodes (s_add_link g s t)) n = Some a' /\ kept a a'.
+  Proof.
+    intros Ha. unfold s_add_link. cbn [a_nodes].
+    destruct (a_upd_kept g (fst s) (fun a0 => a_with_nout a0 (Z.max (a_nout a0) (snd s + 1))) n a) as (a1 & E1 & K1);
+      [intros x; unfold kept; cbn; repeat split; lia|assumption|].
+    destruct (a_upd_kept _ (fst t) (fun a0 => a_with_nin a0 (Z.max (a_nin a0) (snd t + 1))) n a1
+                (fun x => ltac:(unfold kept; cbn; repeat split; lia)) E1) as (a2 & E2 & K2).
+    exists a2. split; [exact E2|]. eapply kept_trans; eassumption.
+  Qed.
+
+  Lemma s_bstep_keeps g c rt g' n a : NoDup (map fst (a_nodes g)) ->
+    s_bstep g c rt = Next g' -> aget (a_nodes g) n = Some a -> c <> DelNode n ->
+    exists a', aget (a_nodes g') n = Some a' /\ kept a a'.
+  Proof.
+    intros HND Hs Ha Hc.
+    assert (Hadd : forall n' o p k m, a_live g n' = false ->
+              exists a', aget (a_nodes (s_add_node g n' o p k m)) n = Some a' /\ kept a a').
+    { intros n' o p k m Hfresh. unfold s_add_node. cbn [a_nodes].
+      assert (Hnn : n <> n') by (intros ->; unfold a_live in Hfresh; rewrite Ha in Hfresh; discriminate).
+      destruct (a_upd_kept g p (fun a0 => a_with_children a0 (a_children a0 ++ [n'])) n a
+                  (fun x => ltac:(unfold kept; cbn; repeat split; lia)) Ha) as (a1 & E1 & K1).
+      exists a1. split; [|exact K1].
+      assert (Hlen : forall l : list (nid * anode Op Meta), aget l n = Some a1 -> forall v, aget (l ++ [(n', v)]) n = Some a1).
+      { induction l as [|[k0 v0] r IH]; cbn; [discriminate|]. destruct (Nat.eqb n k0); auto. }
+      now apply Hlen. }
+    destruct c as [o p k m|o p m|s t|x y|s t|n']; cbn [s_bstep] in Hs.
+    - destruct (a_live g (dflt g p)); [|discriminate]. destruct rt as [|n'|]; try discriminate.
+      destruct (a_live g n') eqn:E; [discriminate|]. injection Hs as <-. now apply Hadd.
+    - destruct (a_live g (dflt g p)); [|discriminate]. destruct rt as [|n'|]; try discriminate.
+      destruct (a_live g n') eqn:E; [discriminate|]. injection Hs as <-. now apply Hadd.
+    - destruct (port_ok g s && port_ok g t); [|discriminate]. injection Hs as <-. now apply s_add_link_kept.
+    - destruct (a_live g x && a_live g y); [|discriminate]. injection Hs as <-.
+      destruct (s_has_link g (x, (-1)%Z) (y, (-1)%Z)); [exists a; split; [assumption|apply kept_refl]|now apply s_add_link_kept].
+    - injection Hs as <-. unfold s_delete_link. destruct (remove1 link_eqb (s, t) (a_links g)); cbn [a_nodes];
+        exists a; (split; [assumption|apply kept_refl]).
+    - destruct (aget (a_nodes g) n') as [an|] eqn:En; [|discriminate].
+      destruct (a_children an); [|discriminate]. destruct (Nat.eqb n' (a_root g)); [discriminate|]. injection Hs as <-.
+      assert (Hnn : n <> n') by congruence.
+      unfold s_delete_node. cbn [a_nodes].
+      destruct (a_parent an) as [p|].
+      + destruct (a_upd_kept g p (fun pa => a_with_children pa (filter (fun c => negb (Nat.eqb c n')) (a_children pa))) n a
+                    (fun x => ltac:(unfold kept; cbn; repeat split; lia)) Ha) as (a1 & E1 & K1).
+        exists a1. split; [|exact K1]. rewrite aget_ddel by now apply a_upd_nodup.
+        destruct (Nat.eqb_spec n n'); [contradiction|assumption].
+      + exists a. split; [|apply kept_refl]. rewrite aget_ddel by assumption.
+        destruct (Nat.eqb_spec n n'); [contradiction|assumption].
+  Qed.
+
+  (* "live nodes keep their index" (and operation, parent, metadata; port counts never shrink) *)
+  Theorem live_nodes_keep_index h g c h' rt r g' n d : Inv h -> Rep h g ->
+    bstep h c = (h', rt, r) -> s_bstep g c rt = Next g' -> get_node h n = Some d -> c <> DelNode n ->
+    exists d', get_node h' n = Some d' /\ nd_op d' = nd_op d /\ nd_parent d' = nd_parent d /\ nd_meta d' = nd_meta d /\
+               (nd_inps d <= nd_inps d')%Z /\ (nd_outs d <= nd_outs d')%Z.
+  Proof.
+    intros HI HR Hb Hs Hd Hc. pose proof (bstep_refines h g c h' rt r HI HR Hb) as H. rewrite Hs in H.
+    destruct H as (_ & _ & HR'). pose proof HR as (HN & HND & _).
+    assert (Ha : aget (a_nodes g) n = Some (anode_of d)) by (rewrite <- HN, Hd; reflexivity).
+    destruct (s_bstep_keeps g c rt g' n _ HND Hs Ha Hc) as (a' & Ea & K).
+    pose proof (get_refines h' g' n HR') as Hn. rewrite Ea in Hn.
+    destruct (get_node h' n) as [d'|]; [|discriminate]. exists d'. split; [reflexivity|].
+    cbn in Hn. assert (a' = anode_of d') by congruence. subst a'. exact K.
+  Qed.
+
+  (* "a deleted node is unreachable and no remaining link mentions it" *)
+  Theorem deleted_node_unreachable_and_unmentioned h g n a : Inv h -> Rep h g ->
+    aget (a_nodes g) n = Some a -> a_children a = [] -> n <> a_root g ->
+    exists h', delete_node h n = (h', Ok) /\ get_node h' n = None /\ ~ In n (iter_nodes h') /\
+               forall l, In l (q_links h') -> touches n l = false.
+  Proof.
+    intros HI HR Ha Hl Hr. destruct (delete_node_refines h g n a HI HR Ha Hl Hr) as (h' & Hd & HI' & HR').
+    exists h'. split; [exact Hd|]. pose proof HR as (_ & HND & _).
+    assert (Hn : get_node h' n = None).
+    { pose proof (get_refines h' _ n HR') as H. unfold s_delete_node in H. cbn [a_nodes] in H.
+      rewrite aget_ddel in H.
+      - rewrite Nat.eqb_refl in H. destruct (get_node h' n); [discriminate|reflexivity].
+      - destruct (a_parent a); [now apply a_upd_nodup|assumption]. }
+    split; [exact Hn|]. split; [rewrite iter_nodes_In; congruence|].
+    intros l Hin. pose proof (links_refine h' _ HR') as HP. eapply Permutation_in in Hin; [|exact HP].
+    unfold s_delete_node in Hin. cbn [a_links] in Hin. apply filter_In in Hin. destruct Hin as [_ H].
+    now destruct (touches n l).
+  Qed.
+
+  Lemma lo_app L s t p : lo (L ++ [(s, t)]) p = lo L p ++ (if port_eqb s p then [t] else []).
+  Proof. unfold lo. rewrite filter_app, map_app. cbn. destruct (port_eqb s p); reflexivity. Qed.
+  Lemma li_app L s t p : li (L ++ [(s, t)]) p = li L p ++ (if port_eqb t p then [s] else []).
+  Proof. unfold li. rewrite filter_app, map_app. cbn. destruct (port_eqb t p); reflexivity. Qed.
+
+  (* "every added link is reported exactly once from both ends" *)
+  Theorem added_link_reported_once_from_both_ends h g s t : Inv h -> Rep h g ->
+    port_ok g s = true -> port_ok g t = true ->
+    exists h', add_link h s t = (h', Ok) /\
+      Permutation (q_links h') ((s, t) :: q_links h) /\
+      (forall p, Permutation (linked_out h' p) ((if port_eqb s p then [t] else []) ++ linked_out h p)) /\
+      (forall p, Permutation (linked_in h' p) ((if port_eqb t p then [s] else []) ++ linked_in h p)).
+  Proof.
+    intros HI HR Hs Ht. destruct (add_link_refines h g s t HI HR Hs Ht) as (h' & Ha & HI' & HR').
+    exists h'. split; [exact Ha|]. split; [|split].
+    - rewrite (links_refine h' _ HR'), (links_refine h g HR). unfold s_add_link. cbn [a_links]. rewrite !a_upd_links.
+      now rewrite <- Permutation_cons_append.
+    - intros p. rewrite (linked_out_refine h' _ p HI' HR'), (linked_out_refine h g p HI HR).
+      unfold sq_linked_out, s_add_link. cbn [a_links]. rewrite !a_upd_links.
+      change (map snd (filter (fun l => port_eqb (fst l) p) (a_links g ++ [(s, t)]))) with (lo (a_links g ++ [(s, t)]) p).
+      rewrite lo_app. apply Permutation_app_comm.
+    - intros p. rewrite (linked_in_refine h' _ p HI' HR'), (linked_in_refine h g p HI HR).
+      unfold sq_linked_in, s_add_link. cbn [a_links]. rewrite !a_upd_links.
+      change (map fst (filter (fun l => port_eqb (snd l) p) (a_links g ++ [(s, t)]))) with (li (a_links g ++ [(s, t)]) p).
+      rewrite li_app. apply Permutation_app_comm.
+  Qed.
+
+  (* "deleting one link removes exactly that one" *)
+  Theorem delete_link_removes_exactly_one h s t : Inv h ->
+    exists h', delete_link h s t = (h', Ok) /\
+      ((In (s, t) (q_links h) /\ Permutation (q_links h) ((s, t) :: q_links h')) \/
+       (~ In (s, t) (q_links h) /\ q_links h' = q_links h)).
+  Proof.
+    intros (HL & _). destruct (lm_delete_link_ok (links h) s t HL) as (l & Hd & _ & Hcase).
+    unfold delete_link. rewrite Hd. eexists. split; [reflexivity|]. unfold q_links. cbn [links with_links].
+    destruct Hcase as [[Hin HP]|[Hn ->]]; [left|right]; auto.
+  Qed.
+
+  (* "reported port counts are never smaller than the highest offset in use plus one" *)
+  Theorem port_count_lower_bounds h s t : Inv h -> In (s, t) (q_links h) ->
+    (exists k, num_out_ports h (fst s) = Some k /\ (snd s + 1 <= k)%Z) /\
+    (exists k, num_in_ports h (fst t) = Some k /\ (snd t + 1 <= k)%Z).
+  Proof.
+    intros (_ & _ & HC & _) Hin. destruct (HC s t Hin) as ((d & E & B) & (d2 & E2 & B2)).
+    unfold num_out_ports, num_in_ports. rewrite E, E2. cbn. split; eexists; (split; [reflexivity|lia]).
+  Qed.
+  (* "... nor than the count requested at creation": the new node reports exactly the requested count,
+     and live_nodes_keep_index shows counts never shrink afterwards *)
+  Theorem port_count_at_creation h g o parent k m : Inv h -> Rep h g -> a_live g (dflt g parent) = true ->
+    exists h' n, add_node h o parent k m = (h', n, Ok) /\ num_out_ports h' n = Some (zdflt k) /\
+                 q_parent h' n = Some (Some (dflt g parent)) /\ get_node h n = None.
+  Proof.
+    intros HI HR Hp. destruct (add_node_refines h g o parent k m HI HR Hp) as (h' & n & Ha & Hf & HI' & HR').
+    exists h', n. split; [exact Ha|]. pose proof (get_refines h' _ n HR') as H.
+    unfold s_add_node in H. cbn [a_nodes] in H.
+    assert (Hfresh : aget (a_nodes g) n = None) by (unfold a_live in Hf; destruct (aget (a_nodes g) n); [discriminate|reflexivity]).
+    assert (Hnp : n <> dflt g parent) by (intros E; unfold a_live in Hp; rewrite <- E, Hfresh in Hp; discriminate).
+    rewrite aget_app_fresh in H by (rewrite a_upd_get; destruct (Nat.eqb_spec n (dflt g parent)); [contradiction|assumption]).
+    rewrite Nat.eqb_refl in H. unfold num_out_ports, q_parent.
+    destruct (get_node h' n) as [d|]; [|discriminate]. cbn in H. injection H as H1 H2 H3 H4 H5 H6. cbn.
+    split; [|split].
+    - now rewrite H6.
+    - now rewrite H2.
+    - pose proof (get_refines h g n HR) as H'. rewrite Hfresh in H'. destruct (get_node h n); [discriminate|reflexivity].
+  Qed.
+
+  Theorem reachable_refines (o : Op) (m : Meta) cs g' :
+    s_brun (s_init 0 o m) (trace (init o m) cs) = Next g' ->
+    Inv (brun (init o m) cs) /\ Rep (brun (init o m) cs) g'.
+  Proof. destruct (init_inv o m) as [HI HR]. exact (brun_refines cs _ _ g' HI HR). Qed.
+  Theorem reachable_never_bad (o : Op) (m : Meta) cs :
+    s_brun (s_init 0 o m) (trace (init o m) cs) <> Bad.
+  Proof. destruct (init_inv o m) as [HI HR]. exact (brun_never_bad cs _ _ HI HR). Qed.
 End W.
